@@ -1,5 +1,6 @@
 """CPython as ground truth: run a generated program (module top level, then entry(*args)) in a clean namespace with
 `out` injected and a line-event step budget. Also records the executed line sequence per activation when asked."""
+import signal
 import sys
 
 
@@ -32,6 +33,15 @@ def run_cpython(src, entry="main", args=(), budget=200000, want_lines=False, fil
     except SyntaxError as e:
         return {"status": "syntax", "error": str(e)}
     old = sys.gettrace()
+
+    def on_alarm(signum, frame):
+        raise Budget()
+    old_handler = None
+    try:
+        old_handler = signal.signal(signal.SIGALRM, on_alarm)      # wall-clock guard: bignum arithmetic is not line-bounded
+        signal.setitimer(signal.ITIMER_REAL, 5.0)
+    except ValueError:
+        old_handler = None
     sys.settrace(tracer)
     try:
         try:
@@ -46,6 +56,9 @@ def run_cpython(src, entry="main", args=(), budget=200000, want_lines=False, fil
             res = {"status": "raise", "error": type(e).__name__ + ": " + str(e)[:200], "outputs": outputs}
     finally:
         sys.settrace(old)
+        if old_handler is not None:
+            signal.setitimer(signal.ITIMER_REAL, 0)
+            signal.signal(signal.SIGALRM, old_handler)
     if want_lines:
         res["lines"] = lines
     return res
